@@ -183,6 +183,42 @@ def generate(rng, tier):
     return {"colors": colors, "ops": ops}
 
 
+def _shorter(o):
+    """smaller variants of one operand"""
+    if "s" in o and len(o["s"]) > 1:
+        yield dict(o, s=o["s"][:1])
+        yield dict(o, s=o["s"][: len(o["s"]) // 2])
+    if "l" in o:
+        for i in range(len(o["l"])):
+            yield {"l": o["l"][:i] + o["l"][i + 1:]}
+        for i, x in enumerate(o["l"]):
+            for y in _shorter(x):
+                yield {"l": o["l"][:i] + [y] + o["l"][i + 1:]}
+
+
+def simplify(trace):
+    ops = trace["ops"]
+    for i, op in enumerate(ops):
+        for key in ("b", "a"):
+            if isinstance(op.get(key), dict):
+                for cand in _shorter(op[key]):
+                    yield dict(trace, ops=ops[:i] + [dict(op, **{key: cand})] + ops[i + 1:])
+        if "s" in op and isinstance(op["s"], str) and len(op["s"]) > 1:
+            yield dict(trace, ops=ops[:i] + [dict(op, s=op["s"][:1])] + ops[i + 1:])
+        for key in ("parts", "items"):
+            if isinstance(op.get(key), list):
+                for j in range(len(op[key])):
+                    yield dict(trace, ops=ops[:i] + [dict(op, **{key: op[key][:j] + op[key][j + 1:]})] + ops[i + 1:])
+                for j, x in enumerate(op[key]):
+                    for y in _shorter(x):
+                        yield dict(trace, ops=ops[:i] + [dict(op, **{key: op[key][:j] + [y] + op[key][j + 1:]})] + ops[i + 1:])
+    if len(trace["colors"]) > 1:
+        for i in range(len(trace["colors"])):
+            if trace["colors"][i] is not None and set(trace["colors"][i]) - {"color", "bg_color"}:
+                c = {"color": trace["colors"][i].get("color") or "RED", "bg_color": None}
+                yield dict(trace, colors=trace["colors"][:i] + [c] + trace["colors"][i + 1:])
+
+
 # --------------------------------------------------------------------------
 # model
 
